@@ -478,11 +478,15 @@ char *strncpy(char *d, const char *s, size_t n)
 }
 /* snprintf: writes at most size bytes including the terminator; returns the length the full
  * output would have had (>= 0).  ASSUMES the variadic arguments match the format and every
- * %s argument is a C string (not checked here). */
-#undef snprintf
-int snprintf(char *d, size_t size, const char *fmt, ...)
+ * %s argument is a C string (not checked here).
+ * DFCC passes its write-set as an extra trailing parameter, which a variadic callee WITH a body
+ * that declares locals or writes memory mis-reads from the variadic arguments (symex then stalls
+ * on a pointer that may be "any string literal").  snprintf is therefore a macro: the format
+ * arguments are still evaluated (v_fmt_args: variadic, empty body), the buffer effect is the
+ * non-variadic v_snprintf. */
+int v_fmt_args(const char *fmt, ...) { return 0; }
+int v_snprintf(char *d, size_t size, int unused)
 {
-    __CPROVER_assert(fmt != NULL, "snprintf: format not NULL");
     __CPROVER_assert(size == 0 || __CPROVER_w_ok(d, size), "snprintf: destination holds size bytes");
     int r = nondet_int();
     __CPROVER_assume(r >= 0);
@@ -492,6 +496,8 @@ int snprintf(char *d, size_t size, const char *fmt, ...)
     }
     return r;
 }
+#undef snprintf
+#define snprintf(d, size, ...) v_snprintf((char *) (d), (size), v_fmt_args(__VA_ARGS__))
 
 /* ======================================================================================
  * 6. STATED RE-BINDINGS of conf.c macros (units that define VERIF_CONF_REBIND)
